@@ -1054,6 +1054,14 @@ func extractC03(c *Ctx) error {
 	}
 	c.P("")
 	c.Info("ante_loop_carried", carriedNames)
+	if err := c03ValsetCollision(c); err != nil {
+		return err
+	}
+	c.P("(** valset SetExternalChainInfoState: EVERY incoming account is compared (address, key) with every")
+	c.P("    account of every other validator: the comparison sits in a loop over the incoming list nested")
+	c.P("    in the loops over the other validators' accounts; no index of the incoming accounts (shape checked). *)")
+	c.P("Definition valset_collision_all_pairs : bool := true.")
+	c.P("")
 	maxDepth, err := c03Flatten(c)
 	if err != nil {
 		return err
@@ -1306,4 +1314,80 @@ func c03Flatten(c *Ctx) (int, error) {
 		return bad("AnteHandle does not call flattenMsgs(tx.GetMsgs(), 0)")
 	}
 	return max, nil
+}
+
+// c03ValsetCollision: the only shape of the 'already registered by another validator' check the
+// review of valset.MsgAddExternalChainInfoForValidator (index row under_creator, table class
+// external) relies on: the comparison `new.GetAddress() == existing.GetAddress() || bytes.Equal(
+// new.GetPubkey(), existing.GetPubkey())` feeding collisionErrors.Add sits inside a `range` over the
+// function's incoming list, itself inside the ranges over every other validator's accounts, and the
+// function builds no map (an index of the incoming accounts keyed without the address compares only
+// one account per key).
+func c03ValsetCollision(c *Ctx) error {
+	files, err := c.ParseDir("x/valset/keeper")
+	if err != nil {
+		return err
+	}
+	fd := FindFuncIn(files, "Keeper", "SetExternalChainInfoState")
+	bad := func(why string) error {
+		return fmt.Errorf("x/valset/keeper SetExternalChainInfoState: %s (shape not understood: every incoming account must be compared with every account of every other validator)", why)
+	}
+	if fd == nil || fd.Body == nil {
+		return bad("not found")
+	}
+	var params []string
+	for _, p := range fd.Type.Params.List {
+		for _, n := range p.Names {
+			params = append(params, n.Name)
+		}
+	}
+	if len(params) != 3 {
+		return bad("expected parameters (ctx, valAddr, chainInfos)")
+	}
+	incoming := params[2]
+	hasMap := false
+	ast.Inspect(fd.Body, func(n ast.Node) bool {
+		if _, ok := n.(*ast.MapType); ok {
+			hasMap = true
+		}
+		return true
+	})
+	if hasMap {
+		return bad("the function builds a map")
+	}
+	adds := Calls(fd.Body, "Add")
+	found := 0
+	var walk func(n ast.Node, ranges []string)
+	walk = func(n ast.Node, ranges []string) {
+		ast.Inspect(n, func(x ast.Node) bool {
+			switch v := x.(type) {
+			case *ast.RangeStmt:
+				if v == n {
+					return true
+				}
+				walk(v.Body, append(append([]string{}, ranges...), c.Src(v.X)))
+				return false
+			case *ast.IfStmt:
+				src := c.Src(v.Cond)
+				if strings.Contains(src, "GetAddress() ==") && strings.Contains(src, "||") && strings.Contains(src, "bytes.Equal(") && strings.Contains(src, "GetPubkey()") &&
+					len(Calls(v.Body, "Add")) == 1 {
+					in := false
+					for _, r := range ranges {
+						if r == incoming {
+							in = true
+						}
+					}
+					if in && len(ranges) == 3 {
+						found++
+					}
+				}
+			}
+			return true
+		})
+	}
+	walk(fd.Body, nil)
+	if found != 1 || len(adds) != 1 {
+		return bad("the address-or-key comparison is not (once) inside a loop over the incoming accounts nested in the loops over the other validators' accounts")
+	}
+	return nil
 }
